@@ -43,7 +43,7 @@ CLAIMED["C14"] = dict(
 
 CLAIMED["C18"] = dict(
    text="Bounded symbolic model checking of the real route matcher and ambiguity check for literal patterns: for every shape (1-2 literal segments of 1-3 bytes per pattern, URI segments of 1-3 bytes; symbolic ASCII content incl. %XX escapes) two patterns and a path-only URI are built and matched with the real RoutePattern::unapply_route_uri: if both patterns match the URI then are_ambiguous must hold (and is symmetric); zero-parameter patterns invert (apply/unapply); matching is deterministic; parse_str agrees field by field with the pattern skeletons the harnesses use.",
-   note="Outside (measured): parameter maps with >=1 parameter (std HashMap in the public signature), RouteUri::from_str (nom + nom_locate + memchr CPU-feature detection: a concrete '/ab' does not finish in 900 s), 'a parameter never binds an empty segment' (>20 GB in decode_utf8_lossy().to_string()), patterns with a scheme, relative patterns, parse_str on symbolic text beyond 2 bytes. Patterns are built from private fields (tied to the real parser by family P and by the native replay, which re-parses with parse_str/from_str). Stubs: RandomState::new (fixed keys; the map stays empty), core::fmt::write (no-op; error message text is not part of the property). One genuine defect found and repaired (C18-X1).",
+   note="Outside (measured): parameter maps with >=1 parameter (std HashMap in the public signature), RouteUri::from_str (nom + nom_locate + memchr CPU-feature detection: a concrete '/ab' does not finish in 900 s), 'a parameter never binds an empty segment' (>20 GB in decode_utf8_lossy().to_string()), patterns with a scheme against a URI that carries a scheme (family S covers 1-byte schemes quick / 0-2-byte thorough against scheme-less URIs), relative patterns, parse_str on symbolic text beyond 2 bytes. Patterns are built from private fields (tied to the real parser by family P and by the native replay, which re-parses with parse_str/from_str). Stubs: RandomState::new (fixed keys; the map stays empty), core::fmt::write (no-op; error message text is not part of the property). One genuine defect found and repaired (C18-X1).",
    ref="DESIGN.md section 4, C18")
 CLAIMED["C13"] = dict(
    text="Bounded symbolic model checking of the real RocksDB key encoding (StoreKey::serialize_as_bytes / write_into / map_ubound_bytes): lane ids over all of u64, keys of every length pair 0..4 (quick) / 0..6 (thorough) with symbolic bytes: encodings of different (lane,key) pairs differ, prefix(lane) <= encode(lane,k) < upper_bound(lane) in bytewise order, ranges of different lanes are disjoint, the suffix after MAP_KEY_PREFIX_SIZE is the key, value keys never collide with or fall inside any map key range.",
